@@ -16,7 +16,7 @@ use jrsonnet_rowan_parser::{
 		Member, Name, Number, ObjBody, ObjLocal, ParamsDesc, SliceDesc, SourceFile, Stmt, Suffix,
 		Text, TextKind, UnaryOperator, Visibility,
 	},
-	AstNode, AstToken as _, SyntaxToken,
+	AstNode, AstToken, SyntaxElement, SyntaxToken, T,
 };
 
 use crate::{
@@ -46,6 +46,18 @@ fn with_indent_eoi(cond: ConditionResolver, o: PrintItems, e: EndingComments) ->
 
 pub trait Printable {
 	fn print(&self, out: &mut PrintItems);
+}
+
+/// Anchors for the `ct(..)`/`cl(..)` printer items: comments written between two tokens of one
+/// construct are found relative to a child node (`n`), an operator-like token (`k`) or a plain token (`t`)
+fn n<T: AstNode>(v: &Option<T>) -> Option<SyntaxElement> {
+	v.as_ref().map(|v| v.syntax().clone().into())
+}
+fn k<T: AstToken>(v: &Option<T>) -> Option<SyntaxElement> {
+	v.as_ref().map(|v| v.syntax().clone().into())
+}
+fn t(v: &Option<SyntaxToken>) -> Option<SyntaxElement> {
+	v.clone().map(Into::into)
 }
 
 /// Source text that may span lines (string literals, unterminated comments) or contain tabs.
@@ -110,6 +122,37 @@ macro_rules! pi {
 	}};
 	(@s; $o:ident: sonl $($t:tt)*) => {{
 		$o.push_signal(dprint_core::formatting::Signal::SpaceOrNewLine);
+		pi!(@s; $o: $($t)*);
+	}};
+	(@s; $o:ident: sp $($t:tt)*) => {{
+		$o.push_signal(dprint_core::formatting::Signal::SpaceIfNotTrailing);
+		pi!(@s; $o: $($t)*);
+	}};
+	// Comments trailing the element: `element /* comment */`
+	(@s; $o:ident: ct($e:expr) $($t:tt)*) => {{
+		$crate::comments::format_comments(
+			&$crate::children::trivia_following($e.as_ref()),
+			$crate::comments::CommentLocation::ItemInline,
+			$o,
+		);
+		pi!(@s; $o: $($t)*);
+	}};
+	// Comments trailing an opening token: `[/* comment */ element`
+	(@s; $o:ident: co($e:expr) $($t:tt)*) => {{
+		$crate::comments::format_comments(
+			&$crate::children::trivia_following($e.as_ref()),
+			$crate::comments::CommentLocation::BeforeInline,
+			$o,
+		);
+		pi!(@s; $o: $($t)*);
+	}};
+	// Comments leading the element: `/* comment */ element`
+	(@s; $o:ident: cl($e:expr) $($t:tt)*) => {{
+		$crate::comments::format_comments(
+			&$crate::children::trivia_preceding($e.as_ref()),
+			$crate::comments::CommentLocation::BeforeInline,
+			$o,
+		);
 		pi!(@s; $o: $($t)*);
 	}};
 	(@s; $o:ident: tab $($t:tt)*) => {{
@@ -353,7 +396,7 @@ impl Printable for FieldName {
 				}
 			}
 			Self::FieldNameDynamic(d) => {
-				p!(out, str("[") {d.expr()} str("]"));
+				p!(out, str("[") cl(n(&d.expr())) {d.expr()} ct(n(&d.expr())) str("]"));
 			}
 		}
 	}
@@ -367,15 +410,15 @@ impl Printable for Visibility {
 
 impl Printable for ObjLocal {
 	fn print(&self, out: &mut PrintItems) {
-		p!(out, str("local ") {self.bind()});
+		p!(out, str("local") sp cl(n(&self.bind())) {self.bind()});
 	}
 }
 
 impl Printable for Assertion {
 	fn print(&self, out: &mut PrintItems) {
-		p!(out, str("assert ") {self.condition()});
+		p!(out, str("assert") sp cl(n(&self.condition())) {self.condition()} ct(n(&self.condition())));
 		if self.colon_token().is_some() || self.message().is_some() {
-			p!(out, str(": ") {self.message()});
+			p!(out, str(":") sp cl(n(&self.message())) {self.message()});
 		}
 	}
 }
@@ -384,9 +427,9 @@ impl Printable for ParamsDesc {
 	fn print(&self, out: &mut PrintItems) {
 		p!(out, str("(") >i nl);
 		for param in self.params() {
-			p!(out, { param.destruct() });
+			p!(out, {param.destruct()} ct(n(&param.destruct())));
 			if param.assign_token().is_some() || param.expr().is_some() {
-				p!(out, str(" = ") {param.expr()});
+				p!(out, sp str("=") sp cl(n(&param.expr())) {param.expr()});
 			}
 			p!(out, str(",") nl);
 		}
@@ -406,7 +449,7 @@ impl Printable for ArgsDesc {
 				format_comments(&ele.before_trivia, CommentLocation::AboveItem, &mut out);
 				let arg = ele.value;
 				if arg.name().is_some() || arg.assign_token().is_some() {
-					p!(&mut out, {arg.name()} str(" = "));
+					p!(&mut out, {arg.name()} ct(n(&arg.name())) sp str("=") sp cl(n(&arg.expr())));
 				}
 				p!(&mut out, { arg.expr() });
 				let has_more = args.peek().is_some();
@@ -451,17 +494,24 @@ impl Printable for ArgsDesc {
 }
 impl Printable for SliceDesc {
 	fn print(&self, out: &mut PrintItems) {
-		p!(out, str("["));
+		p!(out, str("[") co(t(&self.l_brack_token())));
 		if self.from().is_some() {
-			p!(out, { self.from() });
+			p!(out, {self.from()} ct(n(&self.from())));
 		}
-		p!(out, str(":"));
+		p!(out, str(":") co(t(&self.colon_token())));
 		if self.end().is_some() {
-			p!(out, { self.end().map(|e| e.expr()) });
+			p!(out, {self.end().map(|e| e.expr())} ct(n(&self.end())));
 		}
 		// Keep only one : in case if we don't need step
+		let second_colon = self
+			.syntax()
+			.children_with_tokens()
+			.filter(|e| e.kind() == T![:])
+			.nth(1);
 		if self.step().is_some() {
-			p!(out, str(":") {self.step().map(|e|e.expr())});
+			p!(out, str(":") co(second_colon) {self.step().map(|e|e.expr())} ct(n(&self.step())));
+		} else {
+			p!(out, ct(second_colon));
 		}
 		p!(out, str("]"));
 	}
@@ -476,11 +526,22 @@ impl Printable for Member {
 			Self::MemberAssertStmt(ass) => {
 				p!(out, { ass.assertion() });
 			}
-			Self::MemberFieldNormal(n) => {
-				p!(out, {n.field_name()} if(n.plus_token().is_some())({n.plus_token()}) {n.visibility()} str(" ") {n.expr()});
+			Self::MemberFieldNormal(f) => {
+				p!(out, {f.field_name()} ct(n(&f.field_name())) if(f.plus_token().is_some())({f.plus_token()} ct(t(&f.plus_token()))) {f.visibility()} sp cl(n(&f.expr())) {f.expr()});
 			}
 			Self::MemberFieldMethod(m) => {
-				p!(out, {m.field_name()} {m.params_desc()} {m.visibility()} str(" ") {m.expr()});
+				// Written either as `name(params): value` or as `name: function(params) value`
+				let function_kw = m
+					.syntax()
+					.children_with_tokens()
+					.find(|e| e.kind() == T![function]);
+				p!(out, {m.field_name()} ct(n(&m.field_name())));
+				if function_kw.is_some() {
+					p!(out, ct(n(&m.visibility())) ct(function_kw) {m.params_desc()});
+				} else {
+					p!(out, {m.params_desc()} ct(n(&m.params_desc())));
+				}
+				p!(out, {m.visibility()} sp cl(n(&m.expr())) {m.expr()});
 			}
 		}
 	}
@@ -626,10 +687,21 @@ impl Printable for Bind {
 	fn print(&self, out: &mut PrintItems) {
 		match self {
 			Self::BindDestruct(d) => {
-				p!(out, {d.into()} str(" = ") {d.value()});
+				p!(out, {d.into()} ct(n(&d.into())) sp str("=") sp cl(n(&d.value())) {d.value()});
 			}
 			Self::BindFunction(f) => {
-				p!(out, {f.name()} {f.params()} str(" = ") {f.value()});
+				// Written either as `name(params) = value` or as `name = function(params) value`
+				let function_kw = f
+					.syntax()
+					.children_with_tokens()
+					.find(|e| e.kind() == T![function]);
+				p!(out, {f.name()} ct(n(&f.name())));
+				if function_kw.is_some() {
+					p!(out, ct(t(&f.assign_token())) ct(function_kw) {f.params()});
+				} else {
+					p!(out, {f.params()} ct(n(&f.params())));
+				}
+				p!(out, sp str("=") sp cl(n(&f.value())) {f.value()});
 			}
 		}
 	}
@@ -646,12 +718,12 @@ impl Printable for ImportKind {
 }
 impl Printable for ForSpec {
 	fn print(&self, out: &mut PrintItems) {
-		p!(out, str("for ") {self.bind()} str(" in ") {self.expr()});
+		p!(out, str("for") sp cl(n(&self.bind())) {self.bind()} ct(n(&self.bind())) sp str("in") sp cl(n(&self.expr())) {self.expr()});
 	}
 }
 impl Printable for IfSpec {
 	fn print(&self, out: &mut PrintItems) {
-		p!(out, str("if ") {self.expr()});
+		p!(out, str("if") sp cl(n(&self.expr())) {self.expr()});
 	}
 }
 impl Printable for CompSpec {
@@ -700,23 +772,23 @@ impl Printable for Suffix {
 		match self {
 			Self::SuffixIndex(i) => {
 				if i.question_mark_token().is_some() {
-					p!(out, str("?"));
+					p!(out, str("?") ct(t(&i.question_mark_token())));
 				}
-				p!(out, str(".") {i.index()});
+				p!(out, str(".") cl(n(&i.index())) {i.index()});
 			}
 			Self::SuffixIndexExpr(e) => {
 				if e.question_mark_token().is_some() {
-					p!(out, str(".?"));
+					p!(out, str(".?") ct(t(&e.question_mark_token())) ct(t(&e.dot_token())));
 				}
-				p!(out, str("[") {e.index()} str("]"));
+				p!(out, str("[") cl(n(&e.index())) {e.index()} ct(n(&e.index())) str("]"));
 			}
 			Self::SuffixSlice(d) => {
 				p!(out, { d.slice_desc() });
 			}
 			Self::SuffixApply(a) => {
-				p!(out, { a.args_desc() });
+				p!(out, {a.args_desc()} ct(n(&a.args_desc())));
 				if a.tailstrict_kw_token().is_some() {
-					p!(out, str(" tailstrict"));
+					p!(out, sp str("tailstrict"));
 				}
 			}
 		}
@@ -762,7 +834,7 @@ impl Printable for Stmt {
 				p!(out,str(";") nl);
 			}
 			Self::StmtAssert(a) => {
-				p!(out, {a.assertion()} str(";") nl);
+				p!(out, {a.assertion()} ct(n(&a.assertion())) str(";") nl);
 			}
 		}
 	}
@@ -825,9 +897,9 @@ impl Printable for ExprBase {
 	fn print(&self, out: &mut PrintItems) {
 		match self {
 			Self::ExprBinary(b) => {
-				p!(out, {b.lhs()} str(" ") {b.binary_operator()} str(" ") {b.rhs()});
+				p!(out, {b.lhs()} ct(n(&b.lhs())) sp {b.binary_operator()} sp cl(n(&b.rhs())) {b.rhs()});
 			}
-			Self::ExprUnary(u) => p!(out, {u.unary_operator()} {u.rhs()}),
+			Self::ExprUnary(u) => p!(out, {u.unary_operator()} cl(n(&u.rhs())) {u.rhs()}),
 			// Self::ExprSlice(s) => {
 			// 	p!(new: {s.expr()} {s.slice_desc()})
 			// }
@@ -843,10 +915,10 @@ impl Printable for ExprBase {
 			// 	pi
 			// }
 			Self::ExprObjExtend(ex) => {
-				p!(out, {ex.lhs()} str(" ") {ex.rhs()});
+				p!(out, {ex.lhs()} ct(n(&ex.lhs())) sp {ex.rhs()});
 			}
 			Self::ExprParened(p) => {
-				p!(out, str("(") {p.expr()} str(")"));
+				p!(out, str("(") cl(n(&p.expr())) {p.expr()} ct(n(&p.expr())) str(")"));
 			}
 			Self::ExprString(s) => p!(out, { s.text() }),
 			Self::ExprNumber(n) => p!(out, { n.number() }),
@@ -857,27 +929,30 @@ impl Printable for ExprBase {
 				p!(out, { obj.obj_body() });
 			}
 			Self::ExprArrayComp(arr) => {
-				p!(out, str("[") {arr.expr()});
+				p!(out, str("[") cl(n(&arr.expr())) {arr.expr()} ct(n(&arr.expr())) ct(t(&arr.comma_token())));
 				for spec in arr.comp_specs() {
-					p!(out, str(" ") {spec});
+					p!(out, sp {spec} ct(n(&Some(spec))));
 				}
 				p!(out, str("]"));
 			}
 			Self::ExprImport(v) => {
-				p!(out, {v.import_kind()} str(" ") {v.text()});
+				p!(out, {v.import_kind()} sp cl(k(&v.text())) {v.text()});
 			}
 			Self::ExprVar(n) => p!(out, { n.name() }),
 			// Self::ExprLocal(l) => {
 			// }
 			Self::ExprIfThenElse(ite) => {
-				p!(out, str("if ") {ite.cond()} str(" then ") {ite.then().map(|t| t.expr())});
+				p!(out, str("if") sp cl(n(&ite.cond())) {ite.cond()} ct(n(&ite.cond())));
+				p!(out, sp str("then") sp cl(n(&ite.then())) {ite.then().map(|t| t.expr())} ct(n(&ite.then())));
 				if ite.else_kw_token().is_some() || ite.else_().is_some() {
-					p!(out, str(" else ") {ite.else_().map(|t| t.expr())});
+					p!(out, sp str("else") sp cl(n(&ite.else_())) {ite.else_().map(|t| t.expr())});
 				}
 			}
-			Self::ExprFunction(f) => p!(out, str("function") {f.params_desc()} nl {f.expr()}),
+			Self::ExprFunction(f) => {
+				p!(out, str("function") ct(t(&f.function_kw_token())) {f.params_desc()} ct(n(&f.params_desc())) nl {f.expr()});
+			}
 			// Self::ExprAssert(a) => p!(new: {a.assertion()} str("; ") {a.expr()}),
-			Self::ExprError(e) => p!(out, str("error ") {e.expr()}),
+			Self::ExprError(e) => p!(out, str("error") sp cl(n(&e.expr())) {e.expr()}),
 			Self::ExprLiteral(l) => {
 				p!(out, { l.literal() });
 			}
